@@ -1,6 +1,7 @@
 """C09 — all four scalar types compute the same form; complex mode is sesquilinear."""
 import common
 import corpus
+import factcorr
 import valprops
 
 # forms that are meaningful in real AND complex mode (test function conjugated through inner)
@@ -117,13 +118,16 @@ def run(v, tier, seed, g):
         if not ok:
             v.violation("real-special-in-complex-mode", f"erf/bessel/atan2 of real-valued operands no longer compile or agree in complex mode: {r.get('error','')[:150]} {[k.get('why', k.get('error')) for k in r.get('kernels', [])]}",
                         {"case": r["id"], "code": r["code"]})
+    # sesquilinearity in the algebraic core: in complex mode the integrands carry Conj vertices; the real argument
+    # factorisation (handle_conj and friends) against the proved model Fact.v on the same integrands, exact values
+    stats["factorisation_correspondence_complex"] = factcorr.run(v, FORMS + COMPLEX_ONLY, seed, "c09", options_override={"scalar_type": "complex128"})
     if not g["ok"] and not v.violations:
         v.violation("gate", "proof obligations no longer check: " + "; ".join(g["broken"]), {"broken": g["broken"]}, no_input=True)
-    tot = sum(s["agree"] + s["mismatch"] for s in stats.values() if isinstance(s, dict))
+    tot = sum(s["agree"] + s["mismatch"] for s in stats.values() if isinstance(s, dict) and "mismatch" in s)
     cov = {"checker_cmd": f"./check C09 --tier {tier}", "trusted_base": valprops.ORACLE_TRUST + ["Coq kernel + VM (finite theorem over the regenerated math tables)", "tr_math.py",
                                                                                                  "libm / <complex.h> as provided by glibc; bessel/erf values taken from libm on both sides is NOT done: the oracle uses Python's math/cmath"],
-           "programs": sum(s["cases"] for s in stats.values() if isinstance(s, dict)), "disagreements_checked": tot, "evaluations": tot,
-           "distinct_nontrivial": sum(s["distinct"] for s in stats.values() if isinstance(s, dict)), "oracle_by_scalar_type": stats,
+           "programs": sum(s["cases"] for s in stats.values() if isinstance(s, dict) and "cases" in s), "disagreements_checked": tot, "evaluations": tot,
+           "distinct_nontrivial": sum(s["distinct"] for s in stats.values() if isinstance(s, dict) and "distinct" in s), "oracle_by_scalar_type": stats,
            "rule": "each form compiled for float32/float64/complex64/complex128 and compared with the oracle on data of that type (complex data for complex kernels)",
            "axioms_under_property_theorems": g.get("axioms", [])}
     return v.finish("proof", cov, ["forms sampled; proved: the math-function table selects a function existing for the operand type for every (operator, scalar type)"])
